@@ -217,4 +217,5 @@ func checkC16(c *Ctx, r *Result, tier string) {
 
 	// ---- R16h: scope chains end in nil -------------------------------------------------------------
 	c16ScopeChainEnds(c, r, dfuncs)
+	c16LookupBeforeUse(c, r, dfuncs)
 }
